@@ -130,7 +130,7 @@ theorem aexit_lift (D : Int) (ig : Bool) (self : Int) (r : Res) (s : TS)
   have hcont : ∀ m, s.marker = some m → ((D :: s.deadlines).contains m = s.deadlines.contains m) := by
     intro m hm
     have : m ≠ D := by intro h; rw [h] at hm; exact hmk hm
-    simp [List.contains_cons, this]
+    simp [this]
   have hdl : (D :: s.deadlines).dropLast = D :: s.deadlines.dropLast := by
     cases hd : s.deadlines with
     | nil => exact absurd hd hne
